@@ -349,7 +349,7 @@ def run(tier, seed):
             tasks.append((name, [w], True))
         for ws in core.chunks([w for w in range(inst.q) if w not in (0, 1, inst.q // 2 + 1)], 32):
             tasks.append((name, ws, False))
-    tasks.sort(key=lambda t: -(T.get(t[0]).q ** 2) * len(t[1]) * (1 if t[2] else 0.05) * (20 if T.get(t[0]).kind == "ed" else 1))
+    tasks.sort(key=lambda t: -(T.hint(t[0]).q ** 2) * len(t[1]) * (1 if t[2] else 0.05) * (20 if T.hint(t[0]).kind == "ed" else 1))
     core.pmerge(_small_task, tasks, acc)
     core.pmerge(_ids_task, ["T23", "E37"] if quick else ["T23", "T29", "E37", "E109"], acc)
     stasks = []
@@ -370,7 +370,7 @@ def run(tier, seed):
                     stasks.append((name, pw, flavour, xc, xs, pats, seed))
     heavy = [("seq", t) for t in [(["ParamsEd25519", "ParamsEd25519'"],), (["Params1024", "Params1024'"],), (["E37", "E37'", "E109"],), (["T23", "T23'", "T29", "T11"],)]]
     heavy += [("dlog", (n, seed)) for n in reversed(T.SHIPPED)]
-    stasks.sort(key=lambda t: -T.get(t[0]).ref.esize)
+    stasks.sort(key=lambda t: -T.hint(t[0]).ref.esize)
     C.prepare_patterns(T.SHIPPED, "AS", b"password", 0 if quick else 1)
     ptasks = []
     for name in T.SHIPPED:
@@ -380,7 +380,7 @@ def run(tier, seed):
         for flavour in ("AB", "SS"):
             for part in range(np_):
                 ptasks.append((name, flavour, 0 if quick else 1, part, np_))
-    ptasks.sort(key=lambda t: -T.get(t[0]).ref.esize)
+    ptasks.sort(key=lambda t: -T.hint(t[0]).ref.esize)
     heavy += [("rare", (n, f)) for n in reversed(T.SHIPPED) for f in ("AB", "SS")]
     heavy += [("pat", t) for t in ptasks] + [("ship", t) for t in stasks]
     core.pmerge(_heavy, heavy, acc)
